@@ -538,6 +538,29 @@ def rw_project_literal(text: str, name: str, keep: List[str], extra: str = '') -
   return out
 
 
+def rw_rev_take_zip_map(text: str) -> str:
+  """R13c: the tail expression  `A.iter().rev().take(N).zip(B.iter()).map(|(X, Y)| { BODY }).collect::<Vec<T>>()`  ->  the loop the chain runs:
+       let verif_n = N; let mut verif_out: Vec<T> = Vec::new(); let mut verif_k: usize = 0;
+       while verif_k < verif_n && verif_k < A.len() && verif_k < B.len() { let X = &A[A.len() - 1 - verif_k]; let Y = &B[verif_k];
+         let verif_e: T = { BODY }; verif_out.push(verif_e); verif_k += 1; }
+       verif_out
+     (rev+take+zip stop at the shortest of the three; map is lazy and in order; collect pushes in order). A, B are field paths; BODY is copied."""
+  m = re.search(r'((?:self|this)(?:\s*\.\s*\w+)+)\s*\.\s*iter\(\)\s*\.\s*rev\(\)\s*\.\s*take\(\s*(\w+)\s*\)\s*\.\s*zip\(\s*((?:self|this)(?:\s*\.\s*\w+)+)\s*\.\s*iter\(\)\s*\)\s*\.\s*map\(\s*\|\s*\(\s*(\w+)\s*,\s*(\w+)\s*\)\s*\|\s*\{', text)
+  if not m: raise Undecided('R13c: no rev().take().zip().map() chain')
+  toks = rsitems.lex(text)
+  kb = next(i for i, t in enumerate(toks) if t.end == m.end() and t.text == '{')
+  kc = rsitems.match_close(toks, kb)
+  body = text[toks[kb].end:toks[kc].start]
+  rest = text[toks[kc].end:]
+  mm = re.match(r'\s*\)\s*\.\s*collect::<Vec<(\w+)>>\(\)', rest)
+  if not mm: raise Undecided('R13c: the chain does not end in collect::<Vec<T>>()')
+  a = re.sub(r'\s+', '', m.group(1)); b = re.sub(r'\s+', '', m.group(3)); ty = mm.group(1)
+  new = ('let verif_n = %s;\n    let mut verif_out: Vec<%s> = Vec::new();\n    let mut verif_k: usize = 0;\n'
+         '    while verif_k < verif_n && verif_k < %s.len() && verif_k < %s.len() {\n      let %s = &%s[%s.len() - 1 - verif_k];\n      let %s = &%s[verif_k];\n'
+         '      let verif_e: %s = {%s};\n      verif_out.push(verif_e);\n      verif_k += 1;\n    }\n    verif_out') % (m.group(2), ty, a, b, m.group(4), a, a, m.group(5), b, ty, body)
+  return text[:m.start()] + new + rest[mm.end():]
+
+
 def rw_mut_self(text: str) -> str:
   """R1: `fn f(mut self, ...) { B }` -> `fn f(self, ...) { let mut this = self; B[self:=this] }`"""
   a = fn_anatomy(text)
@@ -1091,6 +1114,7 @@ def build_unit(name: str, variant: Optional[str] = None, canary: bool = False) -
         elif rule == 'R15': new = rw_trace_log(new)
         elif rule == 'R13r': new = rw_for_range(new)
         elif rule == 'R13f': new = rw_for_each_index(new)
+        elif rule == 'R13c': new = rw_rev_take_zip_map(new)
         elif rule == 'R17': new = rw_inline_scope(new)
         elif rule == 'R4n': new = rw_next_if_pred(new, args.get('fns', []), args.get('vars', []))
         elif rule == 'R16': new = rw_thread_heap(new, args['methods'], args.get('name', 'verif_heap'), args.get('ty', 'ListHeap'))
